@@ -8,3 +8,25 @@ def exact_fields(f, replay):
         if replay.get(k) != v:
             return False
     return True
+
+
+def _leaf_type(schema_name, type_name):
+    try:
+        from . import schemas
+        return schemas.by_name(schema_name).schema.nodes[type_name].is_leaf
+    except Exception:  # noqa: BLE001
+        return None
+
+
+def c04_leaf_retype(f, replay):
+    """C04 open finding: set_node_markup of an *empty* non-leaf node to a *leaf* type emits a replace-around
+    step whose gap is empty and sits after the leaf wrapper; the inverse's structure check sees the leaf as
+    content and fails.  Class: replace-around, empty gap, insert = 1, slice = one childless node of a leaf type."""
+    st = replay.get("step") or {}
+    if st.get("stepType") != "replaceAround" or st.get("gapFrom") != st.get("gapTo") or st.get("insert") != 1:
+        return False
+    content = (st.get("slice") or {}).get("content") or []
+    if len(content) != 1 or content[0].get("content"):
+        return False
+    leaf = _leaf_type(replay.get("schema"), content[0]["type"])
+    return leaf is True or (leaf is None and st.get("to", 0) - st.get("from", 0) == 2)
